@@ -134,7 +134,11 @@ func vRunCase(c *vCase, settle func()) []string {
 	if err != nil {
 		return []string{"panic"}
 	}
-	if c.store == "noop" {
+	if c.store == "etcd" {
+		// the real etcdStore (etcd.go) over an in-memory KV/Lease
+		real = checkpoint.VerifNewEtcdStore()
+	}
+	if c.store == "noop" || c.store == "etcd" {
 		h.innerLoad = func(tp int) (int64, error) {
 			t, p := vTopic(tp)
 			st, err := real.LoadOffset(context.Background(), t, p)
